@@ -140,6 +140,11 @@ def check_message(L, case, kw, msg, selfobj=None):
         want = a_repr.repr(value)
         if m.group(1) != want:
             out.append(("C20.R3", "counter-example-rendering-differs-from-a_repr", {"case": case["id"], "variable": name, "shown": m.group(1)[:120], "a_repr": want[:120], "len_shown": len(m.group(1)), "len_a_repr": len(want)}))
+    for expr in case.get("hidden_exprs") or ():
+        # a name bound inside the condition (e.g. by :=) to a class, function, method, module or builtin has no line
+        m = re.search(r"(?:^|\n|: )%s was (.*)$" % re.escape(expr), msg, re.M)
+        if m:
+            out.append(("C20.R4", "line-for-unrepresentable-value", {"case": case["id"], "expression": expr, "line": m.group(0)[:120]}))
     for ph, flag in (("_ARGS", "names_args"), ("_KWARGS", "names_kwargs")):
         m = re.search(r"(?:^|\n|: )%s was " % ph, msg, re.M)
         if m and not case.get(flag):
